@@ -50,6 +50,8 @@ pub fn sigma_damage() -> Vec<&'static str> {
     }
     v.extend_from_slice(KEYWORDS);
     v.extend_from_slice(&["a", "A", "_", "_x", "aB", "A_b", "1", "0x1", "1.0", "\"s\""]);
+    // closed string literals with escapes (a literal ending in an escaped backslash, an escaped quote)
+    v.extend_from_slice(&["\"\\\\\"", "\"a\\\\\"", "\"\\\"\""]);
     v.extend_from_slice(&["$", "é", "😀"]);
     v
 }
@@ -59,6 +61,9 @@ pub const CHARS: &[&str] = &[
     "a", "A", "_", "0", ".", "\"", "\\", "/", "-", "<", ">", "=", "|", "&", "!", "+", "*", "%",
     ":", ",", "#", "@", "(", ")", "{", "}", "[", "]", " ", "\n", "\r", "\t", "e", "x", "é", "€",
     "😀", "$",
+    // characters that tools like to treat specially: byte order mark, NUL, form feed, no-break
+    // space, line separator, a combining mark
+    "\u{feff}", "\0", "\u{c}", "\u{a0}", "\u{2028}", "\u{301}",
 ];
 
 pub fn is_wordlike(s: &str) -> bool {
